@@ -46,16 +46,38 @@ def run_one(case, variant):
 
     ent = variant.get("entropy", {})
     entropy.reset(**ent)
+    if case.get("no_logging") and variant.get("logging"):
+        variant = {k: v for k, v in variant.items() if k != "logging"}  # too slow with DEBUG logs; hash seed still varies
     cfg, meta = envdrive.case_cfg(case)
-    if variant.get("logging"):
-        cfg["io_settings"] = {"save_agent_actions": True, "save_step_metadata": False, "save_pcap_logs": True,
-                              "save_sys_logs": True, "save_agent_logs": True, "sys_log_level": "DEBUG",
-                              "agent_log_level": "DEBUG", "write_sys_log_to_terminal": False,
-                              "write_agent_log_to_terminal": False}
-    if case.get("cfg_seed") is not None:
-        cfg["game"]["seed"] = case["cfg_seed"]
+    log_on = {"save_agent_actions": True, "save_step_metadata": False, "save_pcap_logs": True,
+              "save_sys_logs": True, "save_agent_logs": True, "sys_log_level": "DEBUG",
+              "agent_log_level": "DEBUG", "write_sys_log_to_terminal": False,
+              "write_agent_log_to_terminal": False}
+    if isinstance(cfg, str):
+        # episode-scheduled scenario folder: work on a scratch copy whose base scenario gets an io_settings block
+        # appended (a later duplicate top-level key wins in YAML), so the logging variant can differ from the base one
+        import shutil
+        import tempfile
+
+        import yaml
+
+        tmp = tempfile.mkdtemp(prefix="sched_", dir=os.environ.get("HOME", "/tmp"))
+        dst = os.path.join(tmp, "scenario")
+        shutil.copytree(cfg, dst)
+        sched = yaml.safe_load(open(os.path.join(dst, "schedule.yaml")))
+        base = os.path.join(dst, sched["base_scenario"])
+        io = log_on if variant.get("logging") else dict(envdrive.IO_OFF)
+        with open(base, "a") as f:
+            f.write("\n\n" + yaml.safe_dump({"io_settings": io}))
+        cfg = dst
+        use_env = True
+    else:
+        if variant.get("logging"):
+            cfg["io_settings"] = log_on
+        if case.get("cfg_seed") is not None:
+            cfg["game"]["seed"] = case["cfg_seed"]
+        use_env = envdrive.has_proxy(cfg)
     out = {"episodes": [], "error": None}
-    use_env = envdrive.has_proxy(cfg)
     try:
         if case.get("rvc"):
             # reset-vs-construction in a pristine process: the FIRST environment constructed in this interpreter is
